@@ -83,7 +83,8 @@ def extra_programs():
 
 def program_sets(which):
     cells = corpus.cell_programs(corpus.pairwise_configs()[:4])
-    sets = {"cells": cells, "findings": corpus.finding_programs(), "layout": corpus.layout_programs(),
+    sets = {"cells": cells, "findings": corpus.finding_programs(), "layout": [x for x in corpus.layout_programs() if x[0] != "det-escaped-keys"],   # escaped key literals: the IR and the samples carry them as written, a real Go string unescapes them
+           
             "extra": extra_programs()}
     if which == "all":
         return cells + sets["findings"] + sets["layout"] + sets["extra"]
